@@ -3,7 +3,7 @@
 From Coq Require Import ZArith Bool Lia PrimFloat.
 From Bardolph Require Import Base.PyNum Base.Range Gen.ParamGen Gen.ColorsysGen Gen.UnitsGen
      Num.SweepDefs Num.SweepHueProofs Num.SweepSatProofs Num.SweepBriProofs Num.SweepKelProofs
-     Num.SweepIntProofs Num.SweepTimeProofs.
+     Num.SweepIntProofs Num.SweepTime0Proofs Num.SweepTime1Proofs Num.SweepTime2Proofs Num.SweepTime3Proofs.
 Open Scope Z_scope.
 
 Ltac lift n f H := intros r Hr; pose proof (all_range_spec n 0 f H r ltac:(lia)) as Hs.
@@ -31,7 +31,13 @@ Qed.
 Theorem roundtrip_time_262144 : forall d, 0 <= d < 262144 ->
   param_32 (time_raw (time_logical (z2f d))) = d /\ param_32 (z2f d) = d.
 Proof.
-  lift 262144%positive time_ok sweep_time_true. unfold time_ok in Hs.
+  intros r Hr.
+  assert (Hs : time_ok r = true).
+  { destruct (Z_lt_ge_dec r 65536); [apply (all_range_spec _ _ _ sweep_time0_true r); lia |].
+    destruct (Z_lt_ge_dec r 131072); [apply (all_range_spec _ _ _ sweep_time1_true r); lia |].
+    destruct (Z_lt_ge_dec r 196608); [apply (all_range_spec _ _ _ sweep_time2_true r); lia |].
+    apply (all_range_spec _ _ _ sweep_time3_true r); lia. }
+  unfold time_ok in Hs.
   apply andb_prop in Hs. destruct Hs as [H1 H2]. apply Z.eqb_eq in H1, H2. auto.
 Qed.
 
